@@ -450,6 +450,25 @@ def module_level_functions(m):
     return {n.name: n for n in m.tree.body if isinstance(n, ast.FunctionDef)}
 
 
+def private_imports(prog_a, prog_b, m):
+    """functions of other modules of the package that module ``m`` of prog_a imports by name and that prog_b does not have: helpers new on
+    one side, folded like the module's own functions (library functions both sides share stay symbolic call terms)"""
+    from .fold import _import_base
+    out = {}
+    for node in m.tree.body:
+        if isinstance(node, ast.ImportFrom):
+            base = _import_base(m, node)
+            src_a, src_b = prog_a.modules.get(base), prog_b.modules.get(base)
+            if src_a is None:
+                continue
+            fa = module_level_functions(src_a)
+            fb = module_level_functions(src_b) if src_b is not None else {}
+            for al in node.names:
+                if al.name in fa and al.name not in fb:
+                    out[al.asname or al.name] = fa[al.name]
+    return out
+
+
 def compare_method(prog, ci, mname):
     """differential fold of method ``mname`` of class ``ci`` (current tree) against the same method of the reference tree"""
     ref = reference_program()
@@ -463,4 +482,6 @@ def compare_method(prog, ci, mname):
     if ast.dump(cur_fn) == ast.dump(ref_fn) and \
             {k: ast.dump(v) for k, v in module_level_functions(ci.module).items()} == {k: ast.dump(v) for k, v in module_level_functions(rci.module).items()}:
         return True, "identical to the reviewed helper"
-    return compare(cur_fn, ref_fn, module_level_functions(ci.module), module_level_functions(rci.module), sigs=signatures(ref))
+    cur_funcs = dict(private_imports(prog, ref, ci.module), **module_level_functions(ci.module))
+    ref_funcs = dict(private_imports(ref, prog, rci.module), **module_level_functions(rci.module))
+    return compare(cur_fn, ref_fn, cur_funcs, ref_funcs, sigs=signatures(ref))
